@@ -46,6 +46,13 @@ static CMB_THREAD_LOCAL struct {
 /* Storage for the seed used in this thread */
 static CMB_THREAD_LOCAL uint64_t initial_seed = DUMMY_SEED;
 
+#ifdef CIMBA_VERIF
+/* Verification hook: if set, called with the address of every raw 64-bit draw
+ * before it is returned (the harness counts draws per sampler call and may
+ * substitute a boundary value). NULL by default, absent without CIMBA_VERIF. */
+void (*cmi_verif_draw_hook)(uint64_t *draw) = NULL;
+#endif
+
 /*
  * Main pseudo-random number generator - 64-bit output, 256-bit state.
  * An implementation of Chris Doty-Humphrey's sfc64. Fast and high-quality.
@@ -58,6 +65,13 @@ uint64_t cmb_random_sfc64(void)
     prng_state.b = prng_state.c + (prng_state.c << 3);
     prng_state.c = ((prng_state.c << 24) | (prng_state.c >> 40)) + tmp;
 
+#ifdef CIMBA_VERIF
+    if (cmi_verif_draw_hook != NULL) {
+        uint64_t draw = tmp;
+        cmi_verif_draw_hook(&draw);
+        return draw;
+    }
+#endif
     return tmp;
 }
 
